@@ -712,6 +712,62 @@ impl<'a, S: Suite> W<'a, S> {
                     sg.disk.delete(&format!("nonce/{}/{}", m.sess, m.att));
                     sg.disk.sync(None);
                 }
+                // A Byzantine signer (only while faults flow): instead of its honest share it sends one that it
+                // *computed* - for another message, with the two nonce halves swapped, or negated. Each is a
+                // well-formed share that is not the authentic one for (list, msg): the coordinator's
+                // verification must refuse it (ground truth: it is not in `authentic`).
+                let mut se = se;
+                if !self.healed && self.t.chance(1, 14) {
+                    let byz: Option<Vec<u8>> = match self.t.usize(3) {
+                        0 => {
+                            let mut other = msg.clone();
+                            other.push(0x42);
+                            guard_c19(self.out, &eng, "call.frost.sign", || "byzantine: other message".to_string(), || S::share_sign(share, nonce, comm, &other, &list)).flatten().map(S::sigshare_encode)
+                        }
+                        1 => {
+                            // wire layout: identifier | hiding nonce | binding nonce (NS bytes each)
+                            let ne = S::nonce_encode(nonce);
+                            let swapped: Vec<u8> = [&ne[..S::NS], &ne[2 * S::NS..], &ne[S::NS..2 * S::NS]].concat();
+                            match guard_c19(self.out, &eng, "call.frost.nonce_decode", || crate::util::hex(&swapped), || S::nonce_decode(&swapped)).flatten() {
+                                Some(n2) => guard_c19(self.out, &eng, "call.frost.sign", || "byzantine: nonce halves swapped".to_string(), || S::share_sign(share, n2, comm, &msg, &list)).flatten().map(S::sigshare_encode),
+                                None => None,
+                            }
+                        }
+                        _ => {
+                            // -z: order - z on the wire bytes
+                            let mut z = se[S::NS..].to_vec();
+                            let mut om1 = S::order_minus_one_wire();
+                            if S::SCALAR_BE {
+                                z.reverse();
+                                om1.reverse();
+                            }
+                            let mut borrow = 0i16;
+                            let mut r = vec![0u8; z.len()];
+                            for i in 0..z.len() {
+                                let d = om1[i] as i16 - z[i] as i16 - borrow;
+                                if d < 0 { r[i] = (d + 256) as u8; borrow = 1; } else { r[i] = d as u8; borrow = 0; }
+                            }
+                            // + 1
+                            for x in r.iter_mut() {
+                                let (v, c) = x.overflowing_add(1);
+                                *x = v;
+                                if !c { break; }
+                            }
+                            if S::SCALAR_BE {
+                                r.reverse();
+                            }
+                            let mut out = se[..S::NS].to_vec();
+                            out.extend_from_slice(&r);
+                            Some(out)
+                        }
+                    };
+                    if let Some(b) = byz {
+                        if b != se && b.len() == se.len() {
+                            self.out.fault("fault.byzantine.signer_sends_computed_wrong_share");
+                            se = b;
+                        }
+                    }
+                }
                 self.send(Kind::Share, FIRST_SIGNER + si, COORD, m.sess, m.att, se, Vec::new());
                 self.maybe_crash(si, "after_sign");
             }
